@@ -362,6 +362,14 @@ def handbuilt() -> list[tuple[str, dict]]:
         R([O(2, "op_b"), O(3, "Hold")], type="ACTOR", linked_to=3),
         R([O(4, "op_c"), O(5, "End")], type="OBJECT", linked_to=-1, name="OBJECT_X_1"),
         R([], type="PERFORMER", linked_to=0)]}))
+    # parameters a fallback has to print exactly: negative / half-tile position marks, fixed point, odd strings; the routine
+    # falls back because routine 1 is only a jump into it
+    shapes.append(("fallback_with_every_parameter_kind", {"routines": [
+        R([O(0, "op_a", {"t": "pos", "v": ["m", 2, 0, -4, 7]}, {"t": "pos", "v": ["n", 0, 2, 3, -1]}, {"t": "pos", "v": ["o", 2, 2, -1, -1]},
+             {"t": "fp", "v": "-0.5"}, {"t": "fp", "v": "12.125"}, -7, {"t": "str", "v": "it's \"q\""}, {"t": "str", "v": "a\nb"},
+             {"t": "lang", "v": [["english", "e\nf"], ["german", "g"]]}, {"t": "const", "v": "$V"}),
+           O(1, "End")], type="ACTOR", linked_to=-1, name="ACTOR_X"),
+        R([O(2, "Jump", 0)], type="OBJECT", linked_to=5)]}))
     # self loop and nested back edges
     shapes.append(("loops", {"routines": [R([
         O(0, "op_a"), O(1, "BranchBit", V, 0, 0), O(2, "op_b"), O(3, "BranchBit", V, 1, 2), O(4, "Jump", 0)])]}))
